@@ -524,3 +524,26 @@ Definition ok_unescape (c : list N * option (list N) * option (list N)) : bool :
   let '(s, p, q) := c in
   opt_eqb nlist_eqb (unescape PathSegment s) p && opt_eqb nlist_eqb (unescape QueryComponent s) q.
 Definition mismatches_unescape := mismatches ok_unescape.
+
+(** C19: encoding/base64 against Model/Base64.v.  [ok_b64_encode]: the text Go produced for the bytes is the model's and the
+    model reads it back; [ok_b64_decode]: the model reads a text (the joined lines of a generated swaggerSpec literal) as
+    the bytes Go read. *)
+From V Require Import Model.Base64.
+Fixpoint ns_eqb (a b : list N) : bool :=
+  match a, b with
+  | [], [] => true
+  | x :: a', y :: b' => N.eqb x y && ns_eqb a' b'
+  | _, _ => false
+  end.
+Definition ok_b64_encode (c : list N * list N) : bool :=
+  let '(bs, text) := c in
+  ns_eqb (Base64.encode bs) text && match Base64.decode text with Some r => ns_eqb r bs | None => false end.
+Definition mismatches_b64_encode := mismatches ok_b64_encode.
+Definition ok_b64_decode (c : list N * option (list N)) : bool :=
+  let '(text, obs) := c in
+  match Base64.decode text, obs with
+  | Some r, Some bs => ns_eqb r bs
+  | None, None => true
+  | _, _ => false
+  end.
+Definition mismatches_b64_decode := mismatches ok_b64_decode.
